@@ -11,7 +11,7 @@ from vlib.common import Outcome, Violation
 
 PROPERTY = "C17"
 RULE = ("histories of up to 12 operations {create, validate, rename, unlink, foreign overwrite (live pid incl. 1 and 2 / dead pid / EPERM pid / "
-        "garbage / empty / own pid), owner death, revive} by 3 instances (own fake pid each) on 2 paths, executed by the real Pidfile "
+        "garbage / empty / own pid), owner death, revive} by 3 instances (own fake pid each, one a decimal prefix of another's and of the live foreign pid) on 2 paths, executed by the real Pidfile "
         "class on a scratch directory with gunicorn.pidfile.os/tempfile/open proxied (per-instance getpid, model-driven kill(pid,0)); after "
         "every step the directory is compared with a path->content model (create refuses iff the file names another live pid and leaves "
         "it untouched, unlink/rename remove only a file holding the caller's pid, no temp files left). Plus, exhaustively, a crash "
@@ -25,8 +25,8 @@ ASSUMPTIONS = [
 ]
 BUDGET = {"quick": (16, 400), "thorough": (16, 20000)}
 
-PIDS = [4101, 4202, 4303]            # instances
-FOREIGN_LIVE, FOREIGN_DEAD, FOREIGN_EPERM = 5001, 5002, 5003
+PIDS = [4101, 41017, 4303]           # instances (the first is a decimal prefix of the second and of the live foreign pid: pid comparisons are numeric)
+FOREIGN_LIVE, FOREIGN_DEAD, FOREIGN_EPERM = 43035, 5002, 5003
 _state = {}
 
 
